@@ -434,10 +434,8 @@ def core_rules(rep):
                    any(mir.suffix_match(f.npath, k) for k in ("Generator::deallocate", "Generator::deallocate_indirect")), "", f.loc(b))
     rep.guard("R3.2", "ownership mode", r32)
 
-    # ---------------------------------------------------------------- R3.5 walker shapes
-    # ---------------------------------------------------------------- (R3.5 parts, each fails closed on its own)
+    # ---------------------------------------------------------------- R3.5 walker shapes (each part fails closed on its own)
     cD, cI = classify_D(V), classify_I(V)
-
 
     def s_early_return():
         # deallocate_indirect returns early exactly when its own (ty, what) own nothing
@@ -455,7 +453,8 @@ def core_rules(rep):
             region = mI.edge_region(sb, tt)
             others = [c.bb for c in mI.calls() if c.bb != cl.bb]
             skipped = mI.edge_region(sb, ft)
-            ok = oty.get("kind") == "arg" and oty.get("n") == 2 and owh.get("kind") == "arg" and owh.get("n") == mode_param(mI) \
+            typ = [i for i in range(1, mI.argc + 1) if mI.locals[i].startswith("&") and mI.locals[i].split("::")[-1] == "Type"]
+            ok = oty.get("kind") == "arg" and [oty.get("n")] == typ and owh.get("kind") == "arg" and owh.get("n") == mode_param(mI) \
                 and all(b in region for b in others) and not [c for c in mI.calls() if c.bb in skipped]
             det = f"ty from {oty.get('kind')}#{oty.get('n')}, mode from {owh.get('kind')}#{owh.get('n')}, " \
                   f"{len([b for b in others if b not in region])} call(s) outside the needs_deallocate=true region"
@@ -553,11 +552,11 @@ def core_rules(rep):
             fname = [k for k, v in rg.items() if v == "$func"]
             mem = members_of(g.body, set(fname))
             neg = [n for n in synq.walk(g.body) if n.get("k") == "unary" and n["op"] == "!"]
-            dflt = [render(m["args"]) for m in synq.method_calls(g.body, ("unwrap_or", "unwrap_or_default", "is_some_and", "is_none_or"))]
+            dflt = [render(m["args"][0]) for m in synq.method_calls(g.body, ("unwrap_or", "map_or")) if m["args"]]
             calls = synq.fn_calls(g.body, "needs_deallocate")
             rep.ob("R3.5", f"{nm} = needs_deallocate over func.{member} (not negated, absent result = false)",
-                   mem == {member} and not neg and len(calls) == 1 and dflt in ([], ["false"]) and
-                   not synq.method_calls(g.body, ("is_none_or", "all", "unwrap_or_default")),
+                   mem == {member} and not neg and len(calls) == 1 and all(d == "false" for d in dflt) and
+                   not synq.method_calls(g.body, ("is_none_or", "all", "is_none", "is_empty")),
                    f"reads func.{sorted(mem)}, {len(neg)} negation(s), default {dflt}", g.loc())
 
     for part in (s_early_return, s_mem_to_flat, s_elements_first, s_variant_blocks, s_handle_drop, s_in_types, s_post_return_shape, s_predicates):
@@ -942,19 +941,39 @@ def run(rep, tier):
         "other",
         "Structural clauses of C03. Core (crates/core/src/abi.rs): the ownership predicate needs_deallocate (N) and the "
         "two walkers deallocate (D, flat operands) and deallocate_indirect (I, memory) are classified arm by arm over "
-        "the Type/TypeDefKind domain read from wit-parser and must agree (R3.1); the mode constant is fixed at the five "
-        "entry points, threaded unchanged, and DropHandle exists only under what.handles() (R3.2); walker arm shapes: "
-        "pointer+length load, element block before the buffer free, one block per case (R3.5). Backends: every "
-        "abi::post_return call is under the true edge of abi::guest_export_needs_post_return for the same function and "
-        "is reached on every path of that edge; strings naming the post-return export are under the same predicate "
-        "(R3.3); size / alignment / stride expressions of GuestDeallocateList/Map equal those of ListLower/MapLower and "
-        "ListLift/MapLift, and each GuestDeallocate{String,List,Map} template releases operand 0 exactly once after the "
-        "element loop (R3.4). NOT decided: balance for a concrete value, SizeAlign (wit-parser), the target "
-        "languages' allocators, whether flat_types/field_offsets describe the lowered layout (C01).",
+        "the Type/TypeDefKind domain read from wit-parser; N must be the class the property assigns to the kind and D, I "
+        "must do what N promises in both modes, visiting every child (R3.1). The mode constant is created only at the "
+        "five entry points with the right value, is threaded unchanged through every walker call and closure, "
+        "DropHandle exists only on a true edge of what.handles(), and the Rust backend puts each mode into the "
+        "generated function of that name (R3.2). Walker shapes: early return iff N is false for the same arguments, "
+        "pointer+length load, element block closed before the buffer free, one block per case, read/lift before "
+        "DropHandle, post_return = GetArg 0 / result / Return 0, the two public predicates (R3.5). Backends (rust, c "
+        "quick; cpp, csharp, moonbit, d, go thorough): every abi::post_return call is reachable only through the true "
+        "edge of guest_export_needs_post_return for the same function and is reached on every path of that edge, once; "
+        "every string / path / field that names the post-return entry point is under the same predicate with the same "
+        "side conditions (R3.3). Size / alignment / stride expressions of GuestDeallocateList/Map equal those of "
+        "ListLower/MapLower and ListLift/MapLift and belong to the instruction's own element / key+value; an alignment "
+        "is never scaled by the count; Rust's cabi_dealloc gets (ptr, len * size, align) (R3.4). Each "
+        "GuestDeallocate{String,List,Map} template releases operand 0 exactly once, after emitting the element block "
+        "(R3.6). NOT decided: balance for a concrete value, the condition under which a backend skips an empty element "
+        "block, SizeAlign (wit-parser), the target languages' allocators, that flat_types/field_offsets describe the "
+        "lowered layout (C01), async exports (no post-return by construction of the backends; not checked).",
         trusted_base=["syn parse of the generator sources", "rustc MIR of the workspace crates (native target)",
-                      "wit-parser enum definitions (kind domain) and SizeAlign", "class table EXPECT_N in rules/C03.py "
-                      "(transcribes the property statement)"],
+                      "wit-parser enum definitions (kind domain) and SizeAlign",
+                      "class table EXPECT_N in rules/C03.py (transcribes the property statement)",
+                      "per-backend name of the free primitive (BACKENDS[..]['free'] in rules/C03.py)"],
+        assumptions=["a kind owns heap data iff it is string / list / map or contains one; error-context owns none"],
     )
+    rep.rule("R3.1", "consistency matrix N / D / I over every Type and TypeDefKind (both modes), N against the property's class table, "
+                     "children coverage")
+    rep.rule("R3.2", "ownership mode: constants only at the 5 entry points, threaded unchanged, DropHandle only under what.handles(); "
+                     "Rust: generated *_dealloc_lists[_and_own] bodies come from the wrapper of the same mode")
+    rep.rule("R3.3", "post-return generated (abi::post_return call, export names) exactly on the true edge of "
+                     "guest_export_needs_post_return(func), per backend")
+    rep.rule("R3.4", "size / alignment / stride expressions agree between allocation (ListLower/MapLower), lift-side free and "
+                     "GuestDeallocateList/Map, per backend")
+    rep.rule("R3.5", "shapes of the walkers' arms and of post_return / the two public predicates")
+    rep.rule("R3.6", "per backend: GuestDeallocate{String,List,Map} releases operand 0 exactly once, after the element block")
     core_rules(rep)
     for be in (list(BACKENDS) if tier == "thorough" else QUICK_BACKENDS):
         cfg = BACKENDS[be]
